@@ -155,10 +155,13 @@ def run(ctx):
                             v = tm.subst(p.cond, {ia_: tm.const(kidx, ps)})
                             if v is tm.TRUE:
                                 fires = True
-                            elif v is not tm.FALSE:
-                                undecided_ = True
+                            elif v is not tm.FALSE and p.kind not in ('assert:misaligned', 'assert:null_deref', 'assert:null', 'assert:invalid_enum'):
+                                undecided_ = True          # (rustc's own debug checks of raw-pointer accesses depend on addresses, not on the index)
                         if kidx < dim_ and fires:
                             why = 'panics for the valid index %d (the type has %d %s)' % (kidx, dim_, 'lanes' if vi_ else ('rows' if it['name'] == 'row' else 'columns'))
+                            break
+                        if kidx < dim_ and undecided_:
+                            why = 'for the valid index %d a panic still depends on the stored values: only an out-of-range index is a documented panic' % kidx
                             break
                         if kidx >= dim_ and not fires and not undecided_:
                             why = 'does not panic for the out-of-range index %d (the type has %d)' % (kidx, dim_)
@@ -183,7 +186,14 @@ def run(ctx):
                     ln = lens_[0]
                     ps = F.ptr_size
                     for p in r.panics:
-                        if p.cond is tm.FALSE or ln not in p.cond.deps:
+                        if p.cond is tm.FALSE:
+                            continue
+                        extra_ = [a for a in p.cond.deps if a is not ln]
+                        if extra_:
+                            # the documented panic of a slice function is about the length only
+                            why = 'a panic (%s in %s) depends on the values (%s), not only on the length of the slice: that panic is not documented' % (p.kind, p.fn, tm.show(extra_[0])[:40])
+                            break
+                        if ln not in p.cond.deps:
                             continue
                         ks = set()
                         st_ = [p.cond]
